@@ -2,6 +2,8 @@
 
 from __future__ import annotations
 
+import re
+
 import ast
 
 from .. import sqlt
@@ -257,6 +259,12 @@ def rule_guards(ctx):
         ("USE SCHEMA", False, False, (90105, "22000")),
         ("USE SCHEMA qualified", False, False, None),
         ("DROP TABLE", True, False, (90106, "22000")),
+        # schema DDL that names its database needs no current one — in both shapes the parser gives it (with IF EXISTS the schema
+        # sits in `this` and the database in `db`)
+        ("DROP SCHEMA of the same name in another database", False, False, None),
+        ("DROP SCHEMA IF EXISTS of the same name in another database", False, False, None),
+        ("DROP SCHEMA", False, False, (90105, "22000")),
+        ("DROP SCHEMA IF EXISTS current", False, False, (90105, "22000")),
     ]
     for kind, dbs, schs, want in cases:
         for tr in traces(prog, kind, None, dbs, schs):
@@ -336,6 +344,15 @@ def rule_own_context(ctx):
                 if "{T}" in t and names and any("{" + h + "}" in t for h in ("CUR_DB", "CUR_SCHEMA", "S9", "D9")):
                     missing += [nm for nm in names if "{" + nm + "}" not in t and nm not in missing]
             foreign = [h for h in ("{old_", "{OTHER") if h in alltext]
+            # fakesnow's own per-database objects (information_schema._fs_*) are read from the database of the object the statement
+            # names: an unqualified reference reads the *current* database's copy (other lengths / comments, or no such view at all)
+            if names:
+                for t in texts:
+                    for mt_ in re.finditer(r"(\{[A-Za-z0-9_]+\}\.)?information_schema\._fs_\w+", t):
+                        if mt_.group(1) is None and names[0] == "CUR_DB":
+                            continue  # unqualified = the current database, which is the object's
+                        if mt_.group(1) != "{" + names[0] + "}.":
+                            missing.append(f"{names[0]} in front of {mt_.group(0)[:60]}")
             ok = not missing
             ctx.ob("C03.e", f"{kind}: generated SQL is filled with the connection's own {'/'.join(names) or 'context'}", ok,
                    "fakesnow/cursor.py", f"missing {missing}" if missing else "")
